@@ -22,7 +22,7 @@ token_at = L.UF('token_at', I, I, Val)           # (text id, k) -> k-th token ob
 CARRIED = ('lineno', 'paren_count', 'ast')       # lexer fields PLY reads but does not initialise itself
 # what each carried field decides: line numbers in messages (C20), which line breaks are separators and hence
 # which texts are accepted (C06, C15), which tree is returned (C17)
-RESET_PROPS = {'lineno': ['C11', 'C20'], 'paren_count': ['C11', 'C06', 'C15'], 'ast': ['C11', 'C06', 'C17']}
+RESET_PROPS = {'lineno': ['C11', 'C20'], 'paren_count': ['C11', 'C06', 'C15', 'C07'], 'ast': ['C11', 'C06', 'C17', 'C07']}
 RESET_VALUE = {'lineno': L.IntV(1), 'paren_count': L.IntV(0), 'ast': L.NoneV, 'lexpos': L.IntV(0)}
 
 
@@ -193,11 +193,16 @@ class Parse(FnContract):
         else:
             rs = [e for e in ex.events if e[0] == 'raise']
             if rs and rs[-1][2] == 'yacc.parse':
-                ex.prove('C17:parse:a-failed-parse-stores-nothing', ['C17'], not sets)
+                ex.prove('C17:parse:a-failed-parse-stores-nothing', ['C17', 'C20', 'C11'], not sets)
+            # with or without a cache, whatever its eviction policy: parse fails only when the text does not
+            # parse (or the host mapping itself raised while storing)
+            origin = rs[-1][2] if rs else None
+            ex.prove('C17:parse:fails-only-when-the-text-fails-to-parse', ['C17', 'C11'],
+                     origin in ('yacc.parse', 'cache.__setitem__'), {'raised_by': str(origin)})
             ex.prove('C16:parse:only-ordinary-exceptions', ['C16'], L.exc_is_sub(outcome[1], 'Exception'))
         for s in sets:
-            ex.prove('C17:parse:cache-key-is-the-text-itself', ['C17'], s[2] == expr)
-            ex.prove('C17:parse:cached-value-is-the-tree-of-its-key', ['C17'],
+            ex.prove('C17:parse:cache-key-is-the-text-itself', ['C17', 'C20', 'C11'], s[2] == expr)
+            ex.prove('C17:parse:cached-value-is-the-tree-of-its-key', ['C17', 'C20', 'C11'],
                      z3.And(L.is_Str(s[2]), s[3] == parse_tree(Val.s(s[2]))))
         for p in plys:
             ex.prove('C17:parse:parses-exactly-the-text-it-was-given', ['C17', 'C11', 'C07'], p[2] == expr)
@@ -208,7 +213,7 @@ class Parse(FnContract):
             ex.prove('C17:parse:without-parsing-the-result-comes-from-the-cache', ['C17'], len(gets) == 1 and
                      bool(gets) and True)
             for g in gets:
-                ex.prove('C17:parse:cache-looked-up-under-the-text-itself', ['C17'], g[2] == expr)
+                ex.prove('C17:parse:cache-looked-up-under-the-text-itself', ['C17', 'C20', 'C11'], g[2] == expr)
 
 
 def parse_task(engine):
@@ -389,6 +394,9 @@ class Eval(FnContract):
         parses = [e for e in ex.events if e[0] == 'parse_call']
         calls = [e for e in ex.events if e[0] == 'call' and e[1] == 'op_eval']
         ex.prove('C01:SqParser.eval:one-VM-state-carries-the-whole-call', ['C01', 'C11'], len(states) <= 1)
+        if calls:
+            ex.prove('C01:SqParser.eval:evaluates-under-a-VM-state-built-by-this-call', ['C01', 'C11'], len(states) == 1,
+                     {'states_built': len(states)})
         ex.prove('C10:%s:exactly-one-scoped-names-per-call' % n, ['C10', 'C11'], len(sds) == 1 or outcome[0] == 'raise' and len(sds) <= 1)
         for p in parses:
             ex.prove('C07:%s:parses-its-text-without-trailing-whitespace' % n, ['C07', 'C17'],
@@ -479,23 +487,26 @@ class EvalGhost(F.Family):
         """C10 Sc3 / Sc5, when the evaluation starts: scopes == [fresh copy of the builtin table, host names]"""
         n = 'SqParser.eval'
         sds = [e for e in ex.events if e[0] == 'construct' and e[1] == 'ScopedDict']
+        # every property whose builtin specs speak about the published table relies on the layout
+        TBL = ['C10', 'C02', 'C03', 'C04', 'C05', 'C11', 'C13', 'C19']
         pushes = [e for e in ex.events if e[0] == 'push_scope']
         copies = [e for e in ex.events if e[0] == 'dict_copy']
-        ex.prove('C10:%s:one-scoped-names-built-before-the-state' % n, ['C10'], len(sds) == 1)
+        ex.prove('C10:%s:one-scoped-names-built-before-the-state' % n, TBL, len(sds) == 1)
         if not sds:
             return
         sref = Val.lref(ex.get_field(sds[0][2], 'scopes'))
         h = ex.heap
         g = F.G_FUNCTIONS()
-        ex.prove('C10:%s:one-scope-pushed-over-the-builtins' % n, ['C10'], len(pushes) == 1)
-        ex.prove('C10:%s:builtins-copied-never-shared' % n, ['C10'], len(copies) == 1)
+        ex.prove('C10:%s:one-scope-pushed-over-the-builtins' % n, TBL, len(pushes) == 1)
+        ex.prove('C10:%s:builtins-copied-never-shared' % n, TBL, len(copies) == 1)
         if copies and pushes:
             cp = copies[0]
-            ex.prove('C10:%s:bottom-scope-is-a-fresh-copy-of-the-builtin-table' % n, ['C10', 'C02'],
+            ex.prove('C10:%s:bottom-scope-is-a-fresh-copy-of-the-builtin-table' % n,
+                     TBL,
                      z3.And(cp[2] == g, ex.is_fresh(cp[1]), h.llen(sref) == 2, h.lelt(sref, 0) == L.DictV(cp[1]),
                             h.arr('DHAS')[cp[1]] == h.arr('DHAS')[g], h.arr('DVAL')[cp[1]] == h.arr('DVAL')[g]))
             names = ctx['names']
-            ex.prove('C10:%s:host-names-sit-above-the-builtins' % n, ['C10', 'C07'],
+            ex.prove('C10:%s:host-names-sit-above-the-builtins' % n, ['C10', 'C07', 'C11'],
                      z3.And(pushes[0][1] == L.ObjV(sds[0][2]), h.lelt(sref, 1) == pushes[0][2],
                             z3.If(L.is_None(names), z3.And(L.is_Dict(pushes[0][2]), ex.is_fresh(Val.dref(pushes[0][2]))),
                                   pushes[0][2] == names)))
